@@ -447,10 +447,8 @@ def WfBlocks (blockSize size fragIdx fragOff : Nat) (blks : List Nat) : Prop :=
 
 instance (a b c d : Nat) (l : List Nat) : Decidable (WfBlocks a b c d l) := by unfold WfBlocks; exact inferInstance
 
-/-- every field fits its on-disk width, the mode carries the `S_IFMT` bits of the kind, the payload is as long as
-the header fields announce -/
-def WfInode (blockSize : Nat) (i : Inode) : Prop :=
-  WfBase i.typeBits i.base ∧
+/-- the per-kind part: every field fits its on-disk width, the payload is as long as the header fields announce -/
+def WfBody (blockSize : Nat) (i : Inode) : Prop :=
   match i with
   | .dir _ sb nl sz off par => sb < 2 ^ 32 ∧ nl < 2 ^ 32 ∧ sz < 65536 ∧ off < 65536 ∧ par < 2 ^ 32
   | .file _ st fi fo sz blks => st < 2 ^ 32 ∧ fi < 2 ^ 32 ∧ fo < 2 ^ 32 ∧ sz < 2 ^ 32 ∧ WfBlocks blockSize sz fi fo blks
@@ -467,7 +465,14 @@ def WfInode (blockSize : Nat) (i : Inode) : Prop :=
   | .devExt _ _ nl d x => nl < 2 ^ 32 ∧ d < 2 ^ 32 ∧ x < 2 ^ 32
   | .ipcExt _ _ nl x => nl < 2 ^ 32 ∧ x < 2 ^ 32
 
+/-- every field fits its on-disk width, the mode carries the `S_IFMT` bits of the kind, the payload is as long as
+the header fields announce -/
+def WfInode (blockSize : Nat) (i : Inode) : Prop := WfBase i.typeBits i.base ∧ WfBody blockSize i
+
+instance (bs : Nat) (i : Inode) : Decidable (WfBody bs i) := by
+  unfold WfBody; cases i <;> exact inferInstance
+
 instance (bs : Nat) (i : Inode) : Decidable (WfInode bs i) := by
-  unfold WfInode; cases i <;> exact inferInstance
+  unfold WfInode; exact inferInstance
 
 end Sqfs.Enc
